@@ -37,6 +37,13 @@ var ghostKey func(e Entry) []byte
 //@   trusted
 //@   ensures result1 != nil ==> !result0
 
+// OwnsKey: which keys this instance owns (a fixed key-group range: a function of the key).
+//@ func DataOwnership.OwnsKey
+//@   property C06 C03 C07 C08
+//@   trusted
+//@   pure
+//@   modifies nothing
+
 // IsDelete: whether the entry is a delete marker (entries are immutable).
 //@ func Entry.IsDelete
 //@   property C07 C03
